@@ -101,3 +101,26 @@ func (m *Model) anchorBreakEdge() *ssa.Function {
 	}
 	return nil
 }
+
+// eventSites returns the instructions of f that are events: pred holds for them, or they are static calls to a function of the
+// same package that (transitively, depth <= 3) contains an event.
+func (m *Model) eventSites(f *ssa.Function, pred func(ssa.Instruction) bool, depth int) []ssa.Instruction {
+	var out []ssa.Instruction
+	if f == nil || depth > 3 {
+		return nil
+	}
+	eachInstr(f, func(in ssa.Instruction) {
+		if pred(in) {
+			out = append(out, in)
+			return
+		}
+		if ci, ok := in.(ssa.CallInstruction); ok {
+			if c := ci.Common().StaticCallee(); c != nil && c != f && c.Blocks != nil && pkgPathOf(c) == pkgPathOf(f) {
+				if len(m.eventSites(c, pred, depth+1)) > 0 {
+					out = append(out, in)
+				}
+			}
+		}
+	})
+	return out
+}
